@@ -233,6 +233,7 @@ func checkWriterTable(c *core.Ctx, fn *ssa.Function) string {
 }
 
 func runC01(c *core.Ctx) {
+	c.Floor("zero-copy reads examined for lost end-of-input (composite readers)", checkEofNotLost(c, "C01.eof-not-lost", funcsOfPkgs(c, "common")), 2)
 	checkFullReads(c)
 	checkReservedBytesWritten(c)
 	checkStreamExactLength(c)
